@@ -519,6 +519,47 @@ template<class F> struct InterSys {
 static const char* rf_name(RF rf) { static const char* n[] = {"X1", "X2", "X4", "X8"}; return n[(int)rf]; }
 static std::vector<int64_t> values(size_t n) { const int64_t v[] = {1, 2, 3}; return std::vector<int64_t>(v, v + n); }
 
+// every update() overload of the tuple sketch selects the same key as the Theta sketch does: typed boundary grid plus every
+// value of the 8- and 16-bit integer types, against the lock-step theta sketch and the independent oracle hash
+template<class F> static void typed_overloads(Report& rep, const Config& cfg, const std::string& scen) {
+  if (!cfg.replay_scenario.empty() && cfg.replay_scenario != scen) return;
+  std::vector<tc::Val> g = tc::typed_grid();
+  const size_t grid_n = g.size();
+  const bool all16 = !cfg.quick() || std::string(F::tag()) == "i64";   // the overloads are one template; quick sweeps 2^16 for one instantiation
+  for (uint32_t v = 0; v < 65536; v += all16 ? 1 : 257) { g.push_back(tc::vu16((uint16_t)v)); g.push_back(tc::vi16((int16_t)v)); g.push_back(tc::vu16((uint16_t)(65535 - v))); }
+  for (uint32_t v = 0; v < 256; ++v) { g.push_back(tc::vu8((uint8_t)v)); g.push_back(tc::vi8((int8_t)v)); }
+  const uint64_t seeds[] = {DEFAULT_SEED, 123456789ULL};
+  uint64_t n = 0;
+  for (size_t si = 0; si < 2; ++si) for (size_t i = 0; i < (si ? grid_n : g.size()); ++i) {
+    std::string hist = g[i].label + "/seed" + str(seeds[si]);
+    if (!cfg.replay_history.empty() && cfg.replay_history != hist) continue;
+    if (!journal(scen, hist)) continue;
+    typename F::USk sk(F::make_usk(true, 5, RF::X8, 1.0f, seeds[si]));
+    update_theta_sketch th = update_theta_sketch::builder().set_lg_k(5).set_seed(seeds[si]).build();
+    do_update2<F>(sk, g[i], 2); tc::do_update(th, g[i]);
+    oracle::H128 h; bool valid = tc::oracle_hash128(g[i], seeds[si], h);
+    Ctx c(rep, scen, hist);
+    c.eq("empty-as-theta", sk.is_empty(), th.is_empty());
+    if (c.eq("retained-as-theta", sk.get_num_retained(), th.get_num_retained()) && th.get_num_retained() == 1) {
+      c.eq("key-as-theta", (*sk.begin()).first, *th.begin());
+      if (valid && oracle::theta_hash(h) != 0) c.eq("key-as-oracle", (*sk.begin()).first, oracle::theta_hash(h));
+      MV one = F::read((*sk.begin()).second);
+      c.ok("summary-created-and-updated-once", one.size() > 0);
+    }
+    if (!valid) c.ok("ignored-input-leaves-empty", sk.is_empty() && sk.get_num_retained() == 0);
+    rep.flush_ctx_fails(c.fails, scen, hist);
+    ++n;
+    if (i < 400) rep.outcome(std::string("overload|") + g[i].label.substr(0, 3) + (sk.is_empty() ? "|ignored" : "|retained"));
+  }
+  journal_clear();
+  rep.evaluations += n; rep.states += n; rep.transitions += n; rep.traces += n;
+  rep.scenarios.push_back(scen + ": " + str(n) + " (typed value, seed) cases; " + (all16 ? "all 2^16" : "every 257th and its complement of the") + " values of uint16_t/int16_t, all 2^8 of uint8_t/int8_t, boundary grid for the rest (second seed: grid only)");
+}
+template<class F> static void add_overloads(std::vector<Task>& tasks, const Config& cfg) {
+  std::string scen = std::string("overloads/") + F::tag();
+  Task t; t.name = scen; t.fn = [scen, &cfg](Report& rep) { typed_overloads<F>(rep, cfg, scen); }; tasks.push_back(t);
+}
+
 // E1 on the update sketch: tiny configuration, optional seeded start (the last `seeded` keys already offered once)
 template<class F> static void add_upd_bfs(std::vector<Task>& tasks, const Config& cfg, int lg, RF rf, float p, uint64_t seed, size_t nkeys, bool types, size_t nvals, size_t seeded, int depth, size_t max_states) {
   UpdSys<F> sys; sys.lg_nom = (uint8_t)lg; sys.rf = rf; sys.p = p; sys.seed = seed; sys.legal = false; sys.keys = pick_keys(nkeys, seed, types); sys.vals = values(nvals);
@@ -599,6 +640,7 @@ int main(int argc, char** argv) {
   add_upd_bfs<FArr<3> >(tasks, cfg, 2, RF::X4, 1.0f, DS, 10, true, 2, 5, q ? 4 : 6, 3000000);
   add_upd_bfs<FArr<1> >(tasks, cfg, 1, RF::X1, 0.5f, DS, 8, false, 2, 0, q ? 6 : 7, 3000000);
   add_upd_bfs<FArr<1> >(tasks, cfg, 2, RF::X2, 1.0f, DS, 10, false, 2, 5, q ? 4 : 5, 3000000);
+  add_overloads<FI64>(tasks, cfg); add_overloads<FInst>(tasks, cfg); add_overloads<FArr<3> >(tasks, cfg);
   // ---- Part A, E2 ----
   add_upd_paths<FI64>(tasks, cfg, 5, true, RF::X8, 1.0f, 136, 1, q ? 5 : 2, q ? 5 : 7);
   add_upd_paths<FI64>(tasks, cfg, 5, true, RF::X1, 0.5f, q ? 150 : 270, 1, 5, q ? 5 : 7);
